@@ -99,7 +99,7 @@ def make_models(sim, max_chunk):
             return None
 
     return {"_now": m_now, "asyncio.sleep": m_sleep, "asyncio.create_task": m_create_task, "asyncio.wait": m_wait, "len": m_len,
-            "max": P.m_max, "round": P.m_round, "int": P.m_int, "math.floor": P.m_floor}, Super
+            "max": P.m_max, "min": P.m_min, "round": P.m_round, "int": P.m_int, "math.floor": P.m_floor}, Super
 
 
 def new_throttle(ip, limit, reset_rate):
@@ -292,9 +292,10 @@ def interleavings(n_a, n_b):
         yield order
 
 
-def check_shared(L, reset_rate, n_a, n_b, rho_per_fold, stats, max_chunk=64, limit_orders=None):
+def check_shared(L, reset_rate, n_a, n_b, rho_per_fold, stats, max_chunk=64, limit_orders=None, private=None):
     """two streams sharing ONE throttle: at every completion instant the bytes moved by both <= L * elapsed + one block
-    per stream (+ rounding allowance)"""
+    per stream (+ rounding allowance).  private: each stream additionally carries its own throttle with that limit (the
+    per-connection level below a shared level, as the server builds them); the shared bound must hold all the same"""
     out, npaths, norders = [], 0, 0
     for order in interleavings(n_a, n_b):
         norders += 1
@@ -309,7 +310,11 @@ def check_shared(L, reset_rate, n_a, n_b, rho_per_fold, stats, max_chunk=64, lim
             ip_.models = models
             shared = new_throttle(ip_, L, reset_rate)
             none1, none2 = new_throttle(ip_, None, reset_rate), new_throttle(ip_, None, reset_rate)
-            streams = {"A": new_stream(ip_, {"g": (shared, none1)}), "B": new_stream(ip_, {"g": (shared, none2)})}
+            levels = {"A": {"g": (shared, none1)}, "B": {"g": (shared, none2)}}
+            if private is not None:
+                for sname in ("A", "B"):
+                    levels[sname]["p"] = (new_throttle(ip_, private, reset_rate), new_throttle(ip_, None, reset_rate))
+            streams = {"A": new_stream(ip_, levels["A"]), "B": new_stream(ip_, levels["B"])}
             clock = {"A": z3.RealVal(0), "B": z3.RealVal(0)}
             pending = {}
             events = []  # (kind, stream, time, n)
@@ -545,7 +550,7 @@ def replay_main(argv):
 
     spec = json.loads(argv[0])
     if spec["kind"] == "shared":
-        w = replay_shared(spec["limits"][0], spec["reset_rate"], spec["order"], spec["model"])
+        w = replay_shared(spec["limits"][0], spec["reset_rate"], spec["order"], spec["model"], private=(spec["limits"][1] if len(spec["limits"]) > 1 else None))
     else:
         fn = {"ahead": replay_runs_ahead, "unnecessary-delay": replay_unnecessary_delay}[spec["kind"]]
         w = fn(spec["limits"], spec["reset_rate"], spec["direction"], spec["model"])
@@ -559,7 +564,7 @@ if __name__ == "__main__":
     sys.exit(replay_main(sys.argv[1:]))
 
 
-def replay_shared(L, reset_rate, order, model):
+def replay_shared(L, reset_rate, order, model, private=None):
     """the witness of check_shared on two REAL ThrottleStreamIO objects sharing one real Throttle, exact rationals.
     -> excess (Fraction) if the shared bound is exceeded, else None"""
     from fractions import Fraction
@@ -586,8 +591,13 @@ def replay_shared(L, reset_rate, order, model):
             return getattr(asyncio, name)
 
     shared = com.Throttle(limit=Fraction(L), reset_rate=reset_rate)
-    streams = {"A": com.ThrottleStreamIO(None, None, throttles={"g": com.StreamThrottle(read=shared, write=com.Throttle())}),
-               "B": com.ThrottleStreamIO(None, None, throttles={"g": com.StreamThrottle(read=shared, write=com.Throttle())})}
+    def levels():
+        d = {"g": com.StreamThrottle(read=shared, write=com.Throttle())}
+        if private is not None:
+            d["p"] = com.StreamThrottle(read=com.Throttle(limit=Fraction(private), reset_rate=reset_rate), write=com.Throttle())
+        return d
+
+    streams = {"A": com.ThrottleStreamIO(None, None, throttles=levels()), "B": com.ThrottleStreamIO(None, None, throttles=levels())}
     clock = {"A": Fraction(0), "B": Fraction(0)}
     pending, events = {}, []
     saved = com.asyncio
